@@ -581,7 +581,7 @@ def check_builder(recipe, ctx):
 
 SUBS = [
     Sub('pipeline', check, gen=gen, quick=5000, thorough=20000,
-        floors={'endless': 0.15, 'exp-ok': 0.5, 'stage-windowed': 0.03, 'stage-split': 0.03, 'stage-unique': 0.03,
-                'terminal-first': 0.1, 'terminal-all': 0.1}),
+        floors={'endless': 0.12, 'exp-ok': 0.5, 'stage-windowed': 0.03, 'stage-split': 0.03, 'stage-unique': 0.03,
+                'terminal-first': 0.08, 'terminal-all': 0.08}),
     Sub('builder', check_builder, gen=gen_builder, quick=1500, thorough=6000),
 ]
